@@ -1,113 +1,928 @@
-(* STUB: replaced at merge by the C14 / C15 model *)
-(* descriptor.go: parseDescriptors / calcDescriptorsLength / writeDescriptorsWithLength / writeDescriptors,
-   restricted to descriptors without a typed body: user-defined tags 0x80..0xfe (UserDefined bytes) and
-   tags outside the switch of parseDescriptors (DescriptorUnknown).  A typed tag with a non-empty body
-   is NOT supported by this stub: parsing it yields Err E_stub, writing it yields Err E_stub. *)
+(* descriptor.go: parseDescriptors / newDescriptor*, calcDescriptor*Length, writeDescriptor*, control flow as in
+   the source.  The per-tag calcDescriptor<X>Length functions come from Gen/Preds.v (re-translated from the
+   source on every run); calcDescriptorUserDefinedLength, calcDescriptorExtensionLength, the tag dispatch of
+   calcDescriptorLength and the loop of calcDescriptorsLength leave the translator's grammar (slice / pointer
+   compared with nil) and are written by hand below.
+   Interface used by the PSI table and muxer models:
+     parse_descriptors, calc_descriptor_length, calc_descriptors_length,
+     enc_descriptor, enc_descriptors, enc_descriptors_with_length. *)
 From Coq Require Import ZArith List Lia Bool.
-Require Import Base.Bits Base.Iter Base.Wr Gen.Consts Gen.Types Gen.Preds.
+Require Import Base.Bits Base.Iter Base.Wr Gen.Consts Gen.Types Gen.Preds Model.Dvb.
 Import ListNotations.
 Open Scope Z_scope.
 Open Scope iter_scope.
 
-Definition E_stub : Z := 0.
-Definition E_desc_fuel : Z := 99.
+(* ---------------- helpers ---------------- *)
 
-Definition typed_tags : list Z :=
-  [C_DescriptorTagAC3; C_DescriptorTagAVCVideo; C_DescriptorTagComponent; C_DescriptorTagContent;
-   C_DescriptorTagDataStreamAlignment; C_DescriptorTagEnhancedAC3; C_DescriptorTagExtendedEvent;
-   C_DescriptorTagExtension; C_DescriptorTagISO639LanguageAndAudioType; C_DescriptorTagLocalTimeOffset;
-   C_DescriptorTagMaximumBitrate; C_DescriptorTagNetworkName; C_DescriptorTagParentalRating;
-   C_DescriptorTagPrivateDataIndicator; C_DescriptorTagPrivateDataSpecifier; C_DescriptorTagRegistration;
-   C_DescriptorTagService; C_DescriptorTagShortEvent; C_DescriptorTagStreamIdentifier; C_DescriptorTagSubtitling;
-   C_DescriptorTagTeletext; C_DescriptorTagVBIData; C_DescriptorTagVBITeletext].
-Definition is_typed_tag (t : Z) : bool := existsb (Z.eqb t) typed_tags.
-Definition is_user_tag (t : Z) : bool := (128 <=? t) && (t <=? 254).
+(* `for i.Offset() < offsetEnd { item }`: every item parser below consumes at least one byte or fails, so
+   offsetEnd - offset + 1 rounds are always enough; E_fuel is never produced (lemma in Proofs/DescProofs.v) *)
+Definition E_fuel : Z := 99.
 
-Definition mk_plain_descriptor (tag len : Z) (unk : option DescriptorUnknown) (ud : list Z) : Descriptor :=
-  {| Descriptor_AC3 := None; Descriptor_AVCVideo := None; Descriptor_Component := None; Descriptor_Content := None;
-     Descriptor_DataStreamAlignment := None; Descriptor_EnhancedAC3 := None; Descriptor_ExtendedEvent := None;
-     Descriptor_Extension := None; Descriptor_ISO639LanguageAndAudioType := None; Descriptor_Length := len;
-     Descriptor_LocalTimeOffset := None; Descriptor_MaximumBitrate := None; Descriptor_NetworkName := None;
-     Descriptor_ParentalRating := None; Descriptor_PrivateDataIndicator := None; Descriptor_PrivateDataSpecifier := None;
-     Descriptor_Registration := None; Descriptor_Service := None; Descriptor_ShortEvent := None;
-     Descriptor_StreamIdentifier := None; Descriptor_Subtitling := None; Descriptor_Tag := tag;
-     Descriptor_Teletext := None; Descriptor_Unknown := unk; Descriptor_UserDefined := ud;
-     Descriptor_VBIData := None; Descriptor_VBITeletext := None |}.
+Fixpoint iloop_fuel {A} (fuel : nat) (offsetEnd : Z) (item : IM A) : IM (list A) :=
+  match fuel with
+  | O => ierr E_fuel
+  | S k => off <- ioffset ;;
+           if off <? offsetEnd then a <- item ;; r <- iloop_fuel k offsetEnd item ;; iret (a :: r)
+           else iret []
+  end.
 
-(* one descriptor of the loop *)
-Definition parse_descriptor : IM Descriptor :=
+Definition iloop {A} (offsetEnd : Z) (item : IM A) : IM (list A) :=
+  off <- ioffset ;; iloop_fuel (S (Z.to_nat (offsetEnd - off))) offsetEnd item.
+
+(* `if i.Offset() < offsetEnd { x, err = i.NextBytes(offsetEnd - i.Offset()) }` *)
+Definition rest_bytes (offsetEnd : Z) : IM (list Z) :=
+  off <- ioffset ;; if off <? offsetEnd then next_bytes (offsetEnd - off) else iret [].
+
+(* `i.NextBytes(offsetEnd - i.Offset())` without the guard *)
+Definition bytes_to (offsetEnd : Z) : IM (list Z) :=
+  off <- ioffset ;; next_bytes (offsetEnd - off).
+
+(* `if flag { b, err = i.NextByte() }` *)
+Definition opt_byte (c : bool) : IM Z := if c then next_byte else iret 0.
+
+(* a nil pointer dereference in the Go code is a Panic of the model *)
+Definition dneed {A} (o : option A) : res A := match o with Some a => Ok a | None => Panic end.
+
+(* BitsWriter.WriteBytesN(bs, n, pad) *)
+Definition wbytesn (bs : list Z) (n : nat) (pad : Z) : list witem :=
+  if (n =? 0)%nat then []
+  else if (n <=? length bs)%nat then [WBytes (firstn n bs)]
+  else WBytes bs :: repeat (wu8 pad) (n - length bs).
+
+Definition blen (bs : list Z) : Z := Z.of_nat (length bs).
+
+(* ---------------- newDescriptor<X> ---------------- *)
+
+Definition new_descriptor_ac3 (offsetEnd : Z) : IM DescriptorAC3 :=
+  b <- next_byte ;;
+  let hasASVC := bitb [b] 3 in
+  let hasBSID := bitb [b] 1 in
+  let hasCT := bitb [b] 0 in
+  let hasMainID := bitb [b] 2 in
+  ct <- opt_byte hasCT ;;
+  bsid <- opt_byte hasBSID ;;
+  mid <- opt_byte hasMainID ;;
+  asvc <- opt_byte hasASVC ;;
+  ai <- rest_bytes offsetEnd ;;
+  iret {| DescriptorAC3_AdditionalInfo := ai;
+          DescriptorAC3_ASVC := asvc;
+          DescriptorAC3_BSID := bsid;
+          DescriptorAC3_ComponentType := ct;
+          DescriptorAC3_HasASVC := hasASVC;
+          DescriptorAC3_HasBSID := hasBSID;
+          DescriptorAC3_HasComponentType := hasCT;
+          DescriptorAC3_HasMainID := hasMainID;
+          DescriptorAC3_MainID := mid |}.
+
+Definition new_descriptor_avc_video : IM DescriptorAVCVideo :=
+  b0 <- next_byte ;;
+  b1 <- next_byte ;;
+  b2 <- next_byte ;;
+  b3 <- next_byte ;;
+  iret {| DescriptorAVCVideo_AVC24HourPictureFlag := bitb [b3] 1;
+          DescriptorAVCVideo_AVCStillPresent := bitb [b3] 0;
+          DescriptorAVCVideo_CompatibleFlags := bitsf [b1] 3 5;
+          DescriptorAVCVideo_ConstraintSet0Flag := bitb [b1] 0;
+          DescriptorAVCVideo_ConstraintSet1Flag := bitb [b1] 1;
+          DescriptorAVCVideo_ConstraintSet2Flag := bitb [b1] 2;
+          DescriptorAVCVideo_LevelIDC := b2;
+          DescriptorAVCVideo_ProfileIDC := b0 |}.
+
+Definition new_descriptor_component (offsetEnd : Z) : IM DescriptorComponent :=
+  b0 <- next_byte ;;
+  ctype <- next_byte ;;
+  ctag <- next_byte ;;
+  lang <- next_bytes 3 ;;
+  text <- rest_bytes offsetEnd ;;
+  iret {| DescriptorComponent_ComponentTag := ctag;
+          DescriptorComponent_ComponentType := ctype;
+          DescriptorComponent_ISO639LanguageCode := lang;
+          DescriptorComponent_StreamContent := bitsf [b0] 4 4;
+          DescriptorComponent_StreamContentExt := bitsf [b0] 0 4;
+          DescriptorComponent_Text := text |}.
+
+Definition content_item : IM DescriptorContentItem :=
+  bs <- next_bytes_nocopy 2 ;;
+  iret {| DescriptorContentItem_ContentNibbleLevel1 := bitsf bs 0 4;
+          DescriptorContentItem_ContentNibbleLevel2 := bitsf bs 4 4;
+          DescriptorContentItem_UserByte := bitsf bs 8 8 |}.
+
+Definition new_descriptor_content (offsetEnd : Z) : IM DescriptorContent :=
+  items <- iloop offsetEnd content_item ;;
+  iret {| DescriptorContent_Items := items |}.
+
+Definition new_descriptor_data_stream_alignment : IM DescriptorDataStreamAlignment :=
+  b <- next_byte ;; iret {| DescriptorDataStreamAlignment_Type := b |}.
+
+Definition new_descriptor_enhanced_ac3 (offsetEnd : Z) : IM DescriptorEnhancedAC3 :=
+  b <- next_byte ;;
+  let hasASVC := bitb [b] 3 in
+  let hasBSID := bitb [b] 1 in
+  let hasCT := bitb [b] 0 in
+  let hasMainID := bitb [b] 2 in
+  let hasSub1 := bitb [b] 5 in
+  let hasSub2 := bitb [b] 6 in
+  let hasSub3 := bitb [b] 7 in
+  let mixInfo := bitb [b] 4 in
+  ct <- opt_byte hasCT ;;
+  bsid <- opt_byte hasBSID ;;
+  mid <- opt_byte hasMainID ;;
+  asvc <- opt_byte hasASVC ;;
+  s1 <- opt_byte hasSub1 ;;
+  s2 <- opt_byte hasSub2 ;;
+  s3 <- opt_byte hasSub3 ;;
+  ai <- rest_bytes offsetEnd ;;
+  iret {| DescriptorEnhancedAC3_AdditionalInfo := ai;
+          DescriptorEnhancedAC3_ASVC := asvc;
+          DescriptorEnhancedAC3_BSID := bsid;
+          DescriptorEnhancedAC3_ComponentType := ct;
+          DescriptorEnhancedAC3_HasASVC := hasASVC;
+          DescriptorEnhancedAC3_HasBSID := hasBSID;
+          DescriptorEnhancedAC3_HasComponentType := hasCT;
+          DescriptorEnhancedAC3_HasMainID := hasMainID;
+          DescriptorEnhancedAC3_HasSubStream1 := hasSub1;
+          DescriptorEnhancedAC3_HasSubStream2 := hasSub2;
+          DescriptorEnhancedAC3_HasSubStream3 := hasSub3;
+          DescriptorEnhancedAC3_MainID := mid;
+          DescriptorEnhancedAC3_MixInfoExists := mixInfo;
+          DescriptorEnhancedAC3_SubStream1 := s1;
+          DescriptorEnhancedAC3_SubStream2 := s2;
+          DescriptorEnhancedAC3_SubStream3 := s3 |}.
+
+Definition new_descriptor_extended_event_item : IM DescriptorExtendedEventItem :=
+  dl <- next_byte ;;
+  descr <- next_bytes dl ;;
+  cl <- next_byte ;;
+  content <- next_bytes cl ;;
+  iret {| DescriptorExtendedEventItem_Content := content;
+          DescriptorExtendedEventItem_Description := descr |}.
+
+Definition new_descriptor_extended_event : IM DescriptorExtendedEvent :=
+  b <- next_byte ;;
+  lang <- next_bytes 3 ;;
+  il <- next_byte ;;
+  off <- ioffset ;;
+  items <- iloop (off + il) new_descriptor_extended_event_item ;;
+  tl <- next_byte ;;
+  text <- next_bytes tl ;;
+  iret {| DescriptorExtendedEvent_ISO639LanguageCode := lang;
+          DescriptorExtendedEvent_Items := items;
+          DescriptorExtendedEvent_LastDescriptorNumber := bitsf [b] 4 4;
+          DescriptorExtendedEvent_Number := bitsf [b] 0 4;
+          DescriptorExtendedEvent_Text := text |}.
+
+Definition new_descriptor_extension_supplementary_audio (offsetEnd : Z) : IM DescriptorExtensionSupplementaryAudio :=
+  b <- next_byte ;;
+  let hasLang := bitb [b] 7 in
+  lang <- (if hasLang then next_bytes 3 else iret []) ;;
+  pd <- rest_bytes offsetEnd ;;
+  iret {| DescriptorExtensionSupplementaryAudio_EditorialClassification := bitsf [b] 1 5;
+          DescriptorExtensionSupplementaryAudio_HasLanguageCode := hasLang;
+          DescriptorExtensionSupplementaryAudio_LanguageCode := lang;
+          DescriptorExtensionSupplementaryAudio_MixType := bitb [b] 0;
+          DescriptorExtensionSupplementaryAudio_PrivateData := pd |}.
+
+Definition new_descriptor_extension (offsetEnd : Z) : IM DescriptorExtension :=
+  tag <- next_byte ;;
+  if tag =? C_DescriptorTagExtensionSupplementaryAudio then
+    sa <- new_descriptor_extension_supplementary_audio offsetEnd ;;
+    iret {| DescriptorExtension_SupplementaryAudio := Some sa;
+            DescriptorExtension_Tag := tag;
+            DescriptorExtension_Unknown := None |}
+  else
+    bs <- bytes_to offsetEnd ;;
+    iret {| DescriptorExtension_SupplementaryAudio := None;
+            DescriptorExtension_Tag := tag;
+            DescriptorExtension_Unknown := Some bs |}.
+
+(* Language: bs[0 : len(bs)-1], Type: bs[len(bs)-1]; both panic on an empty slice *)
+Definition new_descriptor_iso639 (offsetEnd : Z) : IM DescriptorISO639LanguageAndAudioType :=
+  bs <- bytes_to offsetEnd ;;
+  match bs with
+  | [] => ipanic
+  | _ => iret {| DescriptorISO639LanguageAndAudioType_Language := removelast bs;
+                 DescriptorISO639LanguageAndAudioType_Type := last bs 0 |}
+  end.
+
+Definition local_time_offset_item : IM DescriptorLocalTimeOffsetItem :=
+  cc <- next_bytes 3 ;;
+  b <- next_byte ;;
+  lto <- parse_dvb_duration_minutes ;;
+  toc <- parse_dvb_time ;;
+  nto <- parse_dvb_duration_minutes ;;
+  iret {| DescriptorLocalTimeOffsetItem_CountryCode := cc;
+          DescriptorLocalTimeOffsetItem_CountryRegionID := bitsf [b] 0 6;
+          DescriptorLocalTimeOffsetItem_LocalTimeOffset := lto;
+          DescriptorLocalTimeOffsetItem_LocalTimeOffsetPolarity := bitb [b] 7;
+          DescriptorLocalTimeOffsetItem_NextTimeOffset := nto;
+          DescriptorLocalTimeOffsetItem_TimeOfChange := toc |}.
+
+Definition new_descriptor_local_time_offset (offsetEnd : Z) : IM DescriptorLocalTimeOffset :=
+  items <- iloop offsetEnd local_time_offset_item ;;
+  iret {| DescriptorLocalTimeOffset_Items := items |}.
+
+Definition new_descriptor_maximum_bitrate : IM DescriptorMaximumBitrate :=
+  bs <- next_bytes_nocopy 3 ;;
+  iret {| DescriptorMaximumBitrate_Bitrate := bitsf bs 2 22 * 50 |}.
+
+Definition new_descriptor_network_name (offsetEnd : Z) : IM DescriptorNetworkName :=
+  bs <- bytes_to offsetEnd ;; iret {| DescriptorNetworkName_Name := bs |}.
+
+Definition parental_rating_item : IM DescriptorParentalRatingItem :=
+  bs <- next_bytes 4 ;;
+  iret {| DescriptorParentalRatingItem_CountryCode := firstn 3 bs;
+          DescriptorParentalRatingItem_Rating := byte_at bs 3 |}.
+
+Definition new_descriptor_parental_rating (offsetEnd : Z) : IM DescriptorParentalRating :=
+  items <- iloop offsetEnd parental_rating_item ;;
+  iret {| DescriptorParentalRating_Items := items |}.
+
+Definition new_descriptor_private_data_indicator : IM DescriptorPrivateDataIndicator :=
+  bs <- next_bytes_nocopy 4 ;; iret {| DescriptorPrivateDataIndicator_Indicator := bitsf bs 0 32 |}.
+
+Definition new_descriptor_private_data_specifier : IM DescriptorPrivateDataSpecifier :=
+  bs <- next_bytes_nocopy 4 ;; iret {| DescriptorPrivateDataSpecifier_Specifier := bitsf bs 0 32 |}.
+
+Definition new_descriptor_registration (offsetEnd : Z) : IM DescriptorRegistration :=
+  bs <- next_bytes_nocopy 4 ;;
+  ai <- rest_bytes offsetEnd ;;
+  iret {| DescriptorRegistration_AdditionalIdentificationInfo := ai;
+          DescriptorRegistration_FormatIdentifier := bitsf bs 0 32 |}.
+
+Definition new_descriptor_service : IM DescriptorService :=
+  ty <- next_byte ;;
+  pl <- next_byte ;;
+  provider <- next_bytes pl ;;
+  nl <- next_byte ;;
+  name <- next_bytes nl ;;
+  iret {| DescriptorService_Name := name;
+          DescriptorService_Provider := provider;
+          DescriptorService_Type := ty |}.
+
+Definition new_descriptor_short_event : IM DescriptorShortEvent :=
+  lang <- next_bytes 3 ;;
+  el <- next_byte ;;
+  name <- next_bytes el ;;
+  tl <- next_byte ;;
+  text <- next_bytes tl ;;
+  iret {| DescriptorShortEvent_EventName := name;
+          DescriptorShortEvent_Language := lang;
+          DescriptorShortEvent_Text := text |}.
+
+Definition new_descriptor_stream_identifier : IM DescriptorStreamIdentifier :=
+  b <- next_byte ;; iret {| DescriptorStreamIdentifier_ComponentTag := b |}.
+
+Definition subtitling_item : IM DescriptorSubtitlingItem :=
+  lang <- next_bytes 3 ;;
+  ty <- next_byte ;;
+  cp <- next_bytes_nocopy 2 ;;
+  ap <- next_bytes_nocopy 2 ;;
+  iret {| DescriptorSubtitlingItem_AncillaryPageID := bitsf ap 0 16;
+          DescriptorSubtitlingItem_CompositionPageID := bitsf cp 0 16;
+          DescriptorSubtitlingItem_Language := lang;
+          DescriptorSubtitlingItem_Type := ty |}.
+
+Definition new_descriptor_subtitling (offsetEnd : Z) : IM DescriptorSubtitling :=
+  items <- iloop offsetEnd subtitling_item ;;
+  iret {| DescriptorSubtitling_Items := items |}.
+
+(* Page: uint8(b)>>4*10 + uint8(b&0xf), at most 15*10+15, no wrap *)
+Definition teletext_item : IM DescriptorTeletextItem :=
+  lang <- next_bytes 3 ;;
+  b <- next_byte ;;
+  p <- next_byte ;;
+  iret {| DescriptorTeletextItem_Language := lang;
+          DescriptorTeletextItem_Magazine := bitsf [b] 5 3;
+          DescriptorTeletextItem_Page := bitsf [p] 0 4 * 10 + bitsf [p] 4 4;
+          DescriptorTeletextItem_Type := bitsf [b] 0 5 |}.
+
+Definition new_descriptor_teletext (offsetEnd : Z) : IM DescriptorTeletext :=
+  items <- iloop offsetEnd teletext_item ;;
+  iret {| DescriptorTeletext_Items := items |}.
+
+Definition new_descriptor_unknown (tag len : Z) : IM DescriptorUnknown :=
+  bs <- next_bytes len ;;
+  iret {| DescriptorUnknown_Content := bs; DescriptorUnknown_Tag := tag |}.
+
+Definition is_vbi_line_service (id : Z) : bool :=
+  (id =? C_VBIDataServiceIDClosedCaptioning) || (id =? C_VBIDataServiceIDEBUTeletext) ||
+  (id =? C_VBIDataServiceIDInvertedTeletext) || (id =? C_VBIDataServiceIDMonochrome442Samples) ||
+  (id =? C_VBIDataServiceIDVPS) || (id =? C_VBIDataServiceIDWSS).
+
+Definition vbi_line (b : Z) : DescriptorVBIDataDescriptor :=
+  {| DescriptorVBIDataDescriptor_FieldParity := bitb [b] 2;
+     DescriptorVBIDataDescriptor_LineOffset := bitsf [b] 3 5 |}.
+
+(* the inner loop reads one byte per round and keeps it only for the six line-based services *)
+Definition vbi_data_service : IM DescriptorVBIDataService :=
+  id <- next_byte ;;
+  dl <- next_byte ;;
+  off <- ioffset ;;
+  bs <- iloop (off + dl) next_byte ;;
+  iret {| DescriptorVBIDataService_DataServiceID := id;
+          DescriptorVBIDataService_Descriptors := if is_vbi_line_service id then map vbi_line bs else [] |}.
+
+Definition new_descriptor_vbi_data (offsetEnd : Z) : IM DescriptorVBIData :=
+  srv <- iloop offsetEnd vbi_data_service ;;
+  iret {| DescriptorVBIData_Services := srv |}.
+
+(* ---------------- the Descriptor record: header-only value and one setter per typed body ---------------- *)
+
+Definition desc_hdr (tag len : Z) : Descriptor := {|
+  Descriptor_AC3 := None; Descriptor_AVCVideo := None; Descriptor_Component := None; Descriptor_Content := None; Descriptor_DataStreamAlignment :=
+  None; Descriptor_EnhancedAC3 := None; Descriptor_ExtendedEvent := None; Descriptor_Extension := None; Descriptor_ISO639LanguageAndAudioType := None;
+  Descriptor_Length := len; Descriptor_LocalTimeOffset := None; Descriptor_MaximumBitrate := None; Descriptor_NetworkName := None;
+  Descriptor_ParentalRating := None; Descriptor_PrivateDataIndicator := None; Descriptor_PrivateDataSpecifier := None; Descriptor_Registration :=
+  None; Descriptor_Service := None; Descriptor_ShortEvent := None; Descriptor_StreamIdentifier := None; Descriptor_Subtitling := None; Descriptor_Tag
+  := tag; Descriptor_Teletext := None; Descriptor_Unknown := None; Descriptor_UserDefined := []; Descriptor_VBIData := None; Descriptor_VBITeletext :=
+  None |}.
+Definition set_AC3 (d : Descriptor) (v : DescriptorAC3) : Descriptor := {|
+  Descriptor_AC3 := Some v; Descriptor_AVCVideo := Descriptor_AVCVideo d; Descriptor_Component := Descriptor_Component d; Descriptor_Content :=
+  Descriptor_Content d; Descriptor_DataStreamAlignment := Descriptor_DataStreamAlignment d; Descriptor_EnhancedAC3 := Descriptor_EnhancedAC3 d;
+  Descriptor_ExtendedEvent := Descriptor_ExtendedEvent d; Descriptor_Extension := Descriptor_Extension d; Descriptor_ISO639LanguageAndAudioType :=
+  Descriptor_ISO639LanguageAndAudioType d; Descriptor_Length := Descriptor_Length d; Descriptor_LocalTimeOffset := Descriptor_LocalTimeOffset d;
+  Descriptor_MaximumBitrate := Descriptor_MaximumBitrate d; Descriptor_NetworkName := Descriptor_NetworkName d; Descriptor_ParentalRating :=
+  Descriptor_ParentalRating d; Descriptor_PrivateDataIndicator := Descriptor_PrivateDataIndicator d; Descriptor_PrivateDataSpecifier :=
+  Descriptor_PrivateDataSpecifier d; Descriptor_Registration := Descriptor_Registration d; Descriptor_Service := Descriptor_Service d;
+  Descriptor_ShortEvent := Descriptor_ShortEvent d; Descriptor_StreamIdentifier := Descriptor_StreamIdentifier d; Descriptor_Subtitling :=
+  Descriptor_Subtitling d; Descriptor_Tag := Descriptor_Tag d; Descriptor_Teletext := Descriptor_Teletext d; Descriptor_Unknown := Descriptor_Unknown
+  d; Descriptor_UserDefined := Descriptor_UserDefined d; Descriptor_VBIData := Descriptor_VBIData d; Descriptor_VBITeletext := Descriptor_VBITeletext
+  d |}.
+Definition set_AVCVideo (d : Descriptor) (v : DescriptorAVCVideo) : Descriptor := {|
+  Descriptor_AC3 := Descriptor_AC3 d; Descriptor_AVCVideo := Some v; Descriptor_Component := Descriptor_Component d; Descriptor_Content :=
+  Descriptor_Content d; Descriptor_DataStreamAlignment := Descriptor_DataStreamAlignment d; Descriptor_EnhancedAC3 := Descriptor_EnhancedAC3 d;
+  Descriptor_ExtendedEvent := Descriptor_ExtendedEvent d; Descriptor_Extension := Descriptor_Extension d; Descriptor_ISO639LanguageAndAudioType :=
+  Descriptor_ISO639LanguageAndAudioType d; Descriptor_Length := Descriptor_Length d; Descriptor_LocalTimeOffset := Descriptor_LocalTimeOffset d;
+  Descriptor_MaximumBitrate := Descriptor_MaximumBitrate d; Descriptor_NetworkName := Descriptor_NetworkName d; Descriptor_ParentalRating :=
+  Descriptor_ParentalRating d; Descriptor_PrivateDataIndicator := Descriptor_PrivateDataIndicator d; Descriptor_PrivateDataSpecifier :=
+  Descriptor_PrivateDataSpecifier d; Descriptor_Registration := Descriptor_Registration d; Descriptor_Service := Descriptor_Service d;
+  Descriptor_ShortEvent := Descriptor_ShortEvent d; Descriptor_StreamIdentifier := Descriptor_StreamIdentifier d; Descriptor_Subtitling :=
+  Descriptor_Subtitling d; Descriptor_Tag := Descriptor_Tag d; Descriptor_Teletext := Descriptor_Teletext d; Descriptor_Unknown := Descriptor_Unknown
+  d; Descriptor_UserDefined := Descriptor_UserDefined d; Descriptor_VBIData := Descriptor_VBIData d; Descriptor_VBITeletext := Descriptor_VBITeletext
+  d |}.
+Definition set_Component (d : Descriptor) (v : DescriptorComponent) : Descriptor := {|
+  Descriptor_AC3 := Descriptor_AC3 d; Descriptor_AVCVideo := Descriptor_AVCVideo d; Descriptor_Component := Some v; Descriptor_Content :=
+  Descriptor_Content d; Descriptor_DataStreamAlignment := Descriptor_DataStreamAlignment d; Descriptor_EnhancedAC3 := Descriptor_EnhancedAC3 d;
+  Descriptor_ExtendedEvent := Descriptor_ExtendedEvent d; Descriptor_Extension := Descriptor_Extension d; Descriptor_ISO639LanguageAndAudioType :=
+  Descriptor_ISO639LanguageAndAudioType d; Descriptor_Length := Descriptor_Length d; Descriptor_LocalTimeOffset := Descriptor_LocalTimeOffset d;
+  Descriptor_MaximumBitrate := Descriptor_MaximumBitrate d; Descriptor_NetworkName := Descriptor_NetworkName d; Descriptor_ParentalRating :=
+  Descriptor_ParentalRating d; Descriptor_PrivateDataIndicator := Descriptor_PrivateDataIndicator d; Descriptor_PrivateDataSpecifier :=
+  Descriptor_PrivateDataSpecifier d; Descriptor_Registration := Descriptor_Registration d; Descriptor_Service := Descriptor_Service d;
+  Descriptor_ShortEvent := Descriptor_ShortEvent d; Descriptor_StreamIdentifier := Descriptor_StreamIdentifier d; Descriptor_Subtitling :=
+  Descriptor_Subtitling d; Descriptor_Tag := Descriptor_Tag d; Descriptor_Teletext := Descriptor_Teletext d; Descriptor_Unknown := Descriptor_Unknown
+  d; Descriptor_UserDefined := Descriptor_UserDefined d; Descriptor_VBIData := Descriptor_VBIData d; Descriptor_VBITeletext := Descriptor_VBITeletext
+  d |}.
+Definition set_Content (d : Descriptor) (v : DescriptorContent) : Descriptor := {|
+  Descriptor_AC3 := Descriptor_AC3 d; Descriptor_AVCVideo := Descriptor_AVCVideo d; Descriptor_Component := Descriptor_Component d; Descriptor_Content
+  := Some v; Descriptor_DataStreamAlignment := Descriptor_DataStreamAlignment d; Descriptor_EnhancedAC3 := Descriptor_EnhancedAC3 d;
+  Descriptor_ExtendedEvent := Descriptor_ExtendedEvent d; Descriptor_Extension := Descriptor_Extension d; Descriptor_ISO639LanguageAndAudioType :=
+  Descriptor_ISO639LanguageAndAudioType d; Descriptor_Length := Descriptor_Length d; Descriptor_LocalTimeOffset := Descriptor_LocalTimeOffset d;
+  Descriptor_MaximumBitrate := Descriptor_MaximumBitrate d; Descriptor_NetworkName := Descriptor_NetworkName d; Descriptor_ParentalRating :=
+  Descriptor_ParentalRating d; Descriptor_PrivateDataIndicator := Descriptor_PrivateDataIndicator d; Descriptor_PrivateDataSpecifier :=
+  Descriptor_PrivateDataSpecifier d; Descriptor_Registration := Descriptor_Registration d; Descriptor_Service := Descriptor_Service d;
+  Descriptor_ShortEvent := Descriptor_ShortEvent d; Descriptor_StreamIdentifier := Descriptor_StreamIdentifier d; Descriptor_Subtitling :=
+  Descriptor_Subtitling d; Descriptor_Tag := Descriptor_Tag d; Descriptor_Teletext := Descriptor_Teletext d; Descriptor_Unknown := Descriptor_Unknown
+  d; Descriptor_UserDefined := Descriptor_UserDefined d; Descriptor_VBIData := Descriptor_VBIData d; Descriptor_VBITeletext := Descriptor_VBITeletext
+  d |}.
+Definition set_DataStreamAlignment (d : Descriptor) (v : DescriptorDataStreamAlignment) : Descriptor := {|
+  Descriptor_AC3 := Descriptor_AC3 d; Descriptor_AVCVideo := Descriptor_AVCVideo d; Descriptor_Component := Descriptor_Component d; Descriptor_Content
+  := Descriptor_Content d; Descriptor_DataStreamAlignment := Some v; Descriptor_EnhancedAC3 := Descriptor_EnhancedAC3 d; Descriptor_ExtendedEvent :=
+  Descriptor_ExtendedEvent d; Descriptor_Extension := Descriptor_Extension d; Descriptor_ISO639LanguageAndAudioType :=
+  Descriptor_ISO639LanguageAndAudioType d; Descriptor_Length := Descriptor_Length d; Descriptor_LocalTimeOffset := Descriptor_LocalTimeOffset d;
+  Descriptor_MaximumBitrate := Descriptor_MaximumBitrate d; Descriptor_NetworkName := Descriptor_NetworkName d; Descriptor_ParentalRating :=
+  Descriptor_ParentalRating d; Descriptor_PrivateDataIndicator := Descriptor_PrivateDataIndicator d; Descriptor_PrivateDataSpecifier :=
+  Descriptor_PrivateDataSpecifier d; Descriptor_Registration := Descriptor_Registration d; Descriptor_Service := Descriptor_Service d;
+  Descriptor_ShortEvent := Descriptor_ShortEvent d; Descriptor_StreamIdentifier := Descriptor_StreamIdentifier d; Descriptor_Subtitling :=
+  Descriptor_Subtitling d; Descriptor_Tag := Descriptor_Tag d; Descriptor_Teletext := Descriptor_Teletext d; Descriptor_Unknown := Descriptor_Unknown
+  d; Descriptor_UserDefined := Descriptor_UserDefined d; Descriptor_VBIData := Descriptor_VBIData d; Descriptor_VBITeletext := Descriptor_VBITeletext
+  d |}.
+Definition set_EnhancedAC3 (d : Descriptor) (v : DescriptorEnhancedAC3) : Descriptor := {|
+  Descriptor_AC3 := Descriptor_AC3 d; Descriptor_AVCVideo := Descriptor_AVCVideo d; Descriptor_Component := Descriptor_Component d; Descriptor_Content
+  := Descriptor_Content d; Descriptor_DataStreamAlignment := Descriptor_DataStreamAlignment d; Descriptor_EnhancedAC3 := Some v;
+  Descriptor_ExtendedEvent := Descriptor_ExtendedEvent d; Descriptor_Extension := Descriptor_Extension d; Descriptor_ISO639LanguageAndAudioType :=
+  Descriptor_ISO639LanguageAndAudioType d; Descriptor_Length := Descriptor_Length d; Descriptor_LocalTimeOffset := Descriptor_LocalTimeOffset d;
+  Descriptor_MaximumBitrate := Descriptor_MaximumBitrate d; Descriptor_NetworkName := Descriptor_NetworkName d; Descriptor_ParentalRating :=
+  Descriptor_ParentalRating d; Descriptor_PrivateDataIndicator := Descriptor_PrivateDataIndicator d; Descriptor_PrivateDataSpecifier :=
+  Descriptor_PrivateDataSpecifier d; Descriptor_Registration := Descriptor_Registration d; Descriptor_Service := Descriptor_Service d;
+  Descriptor_ShortEvent := Descriptor_ShortEvent d; Descriptor_StreamIdentifier := Descriptor_StreamIdentifier d; Descriptor_Subtitling :=
+  Descriptor_Subtitling d; Descriptor_Tag := Descriptor_Tag d; Descriptor_Teletext := Descriptor_Teletext d; Descriptor_Unknown := Descriptor_Unknown
+  d; Descriptor_UserDefined := Descriptor_UserDefined d; Descriptor_VBIData := Descriptor_VBIData d; Descriptor_VBITeletext := Descriptor_VBITeletext
+  d |}.
+Definition set_ExtendedEvent (d : Descriptor) (v : DescriptorExtendedEvent) : Descriptor := {|
+  Descriptor_AC3 := Descriptor_AC3 d; Descriptor_AVCVideo := Descriptor_AVCVideo d; Descriptor_Component := Descriptor_Component d; Descriptor_Content
+  := Descriptor_Content d; Descriptor_DataStreamAlignment := Descriptor_DataStreamAlignment d; Descriptor_EnhancedAC3 := Descriptor_EnhancedAC3 d;
+  Descriptor_ExtendedEvent := Some v; Descriptor_Extension := Descriptor_Extension d; Descriptor_ISO639LanguageAndAudioType :=
+  Descriptor_ISO639LanguageAndAudioType d; Descriptor_Length := Descriptor_Length d; Descriptor_LocalTimeOffset := Descriptor_LocalTimeOffset d;
+  Descriptor_MaximumBitrate := Descriptor_MaximumBitrate d; Descriptor_NetworkName := Descriptor_NetworkName d; Descriptor_ParentalRating :=
+  Descriptor_ParentalRating d; Descriptor_PrivateDataIndicator := Descriptor_PrivateDataIndicator d; Descriptor_PrivateDataSpecifier :=
+  Descriptor_PrivateDataSpecifier d; Descriptor_Registration := Descriptor_Registration d; Descriptor_Service := Descriptor_Service d;
+  Descriptor_ShortEvent := Descriptor_ShortEvent d; Descriptor_StreamIdentifier := Descriptor_StreamIdentifier d; Descriptor_Subtitling :=
+  Descriptor_Subtitling d; Descriptor_Tag := Descriptor_Tag d; Descriptor_Teletext := Descriptor_Teletext d; Descriptor_Unknown := Descriptor_Unknown
+  d; Descriptor_UserDefined := Descriptor_UserDefined d; Descriptor_VBIData := Descriptor_VBIData d; Descriptor_VBITeletext := Descriptor_VBITeletext
+  d |}.
+Definition set_Extension (d : Descriptor) (v : DescriptorExtension) : Descriptor := {|
+  Descriptor_AC3 := Descriptor_AC3 d; Descriptor_AVCVideo := Descriptor_AVCVideo d; Descriptor_Component := Descriptor_Component d; Descriptor_Content
+  := Descriptor_Content d; Descriptor_DataStreamAlignment := Descriptor_DataStreamAlignment d; Descriptor_EnhancedAC3 := Descriptor_EnhancedAC3 d;
+  Descriptor_ExtendedEvent := Descriptor_ExtendedEvent d; Descriptor_Extension := Some v; Descriptor_ISO639LanguageAndAudioType :=
+  Descriptor_ISO639LanguageAndAudioType d; Descriptor_Length := Descriptor_Length d; Descriptor_LocalTimeOffset := Descriptor_LocalTimeOffset d;
+  Descriptor_MaximumBitrate := Descriptor_MaximumBitrate d; Descriptor_NetworkName := Descriptor_NetworkName d; Descriptor_ParentalRating :=
+  Descriptor_ParentalRating d; Descriptor_PrivateDataIndicator := Descriptor_PrivateDataIndicator d; Descriptor_PrivateDataSpecifier :=
+  Descriptor_PrivateDataSpecifier d; Descriptor_Registration := Descriptor_Registration d; Descriptor_Service := Descriptor_Service d;
+  Descriptor_ShortEvent := Descriptor_ShortEvent d; Descriptor_StreamIdentifier := Descriptor_StreamIdentifier d; Descriptor_Subtitling :=
+  Descriptor_Subtitling d; Descriptor_Tag := Descriptor_Tag d; Descriptor_Teletext := Descriptor_Teletext d; Descriptor_Unknown := Descriptor_Unknown
+  d; Descriptor_UserDefined := Descriptor_UserDefined d; Descriptor_VBIData := Descriptor_VBIData d; Descriptor_VBITeletext := Descriptor_VBITeletext
+  d |}.
+Definition set_ISO639LanguageAndAudioType (d : Descriptor) (v : DescriptorISO639LanguageAndAudioType) : Descriptor := {|
+  Descriptor_AC3 := Descriptor_AC3 d; Descriptor_AVCVideo := Descriptor_AVCVideo d; Descriptor_Component := Descriptor_Component d; Descriptor_Content
+  := Descriptor_Content d; Descriptor_DataStreamAlignment := Descriptor_DataStreamAlignment d; Descriptor_EnhancedAC3 := Descriptor_EnhancedAC3 d;
+  Descriptor_ExtendedEvent := Descriptor_ExtendedEvent d; Descriptor_Extension := Descriptor_Extension d; Descriptor_ISO639LanguageAndAudioType :=
+  Some v; Descriptor_Length := Descriptor_Length d; Descriptor_LocalTimeOffset := Descriptor_LocalTimeOffset d; Descriptor_MaximumBitrate :=
+  Descriptor_MaximumBitrate d; Descriptor_NetworkName := Descriptor_NetworkName d; Descriptor_ParentalRating := Descriptor_ParentalRating d;
+  Descriptor_PrivateDataIndicator := Descriptor_PrivateDataIndicator d; Descriptor_PrivateDataSpecifier := Descriptor_PrivateDataSpecifier d;
+  Descriptor_Registration := Descriptor_Registration d; Descriptor_Service := Descriptor_Service d; Descriptor_ShortEvent := Descriptor_ShortEvent d;
+  Descriptor_StreamIdentifier := Descriptor_StreamIdentifier d; Descriptor_Subtitling := Descriptor_Subtitling d; Descriptor_Tag := Descriptor_Tag d;
+  Descriptor_Teletext := Descriptor_Teletext d; Descriptor_Unknown := Descriptor_Unknown d; Descriptor_UserDefined := Descriptor_UserDefined d;
+  Descriptor_VBIData := Descriptor_VBIData d; Descriptor_VBITeletext := Descriptor_VBITeletext d |}.
+Definition set_LocalTimeOffset (d : Descriptor) (v : DescriptorLocalTimeOffset) : Descriptor := {|
+  Descriptor_AC3 := Descriptor_AC3 d; Descriptor_AVCVideo := Descriptor_AVCVideo d; Descriptor_Component := Descriptor_Component d; Descriptor_Content
+  := Descriptor_Content d; Descriptor_DataStreamAlignment := Descriptor_DataStreamAlignment d; Descriptor_EnhancedAC3 := Descriptor_EnhancedAC3 d;
+  Descriptor_ExtendedEvent := Descriptor_ExtendedEvent d; Descriptor_Extension := Descriptor_Extension d; Descriptor_ISO639LanguageAndAudioType :=
+  Descriptor_ISO639LanguageAndAudioType d; Descriptor_Length := Descriptor_Length d; Descriptor_LocalTimeOffset := Some v; Descriptor_MaximumBitrate
+  := Descriptor_MaximumBitrate d; Descriptor_NetworkName := Descriptor_NetworkName d; Descriptor_ParentalRating := Descriptor_ParentalRating d;
+  Descriptor_PrivateDataIndicator := Descriptor_PrivateDataIndicator d; Descriptor_PrivateDataSpecifier := Descriptor_PrivateDataSpecifier d;
+  Descriptor_Registration := Descriptor_Registration d; Descriptor_Service := Descriptor_Service d; Descriptor_ShortEvent := Descriptor_ShortEvent d;
+  Descriptor_StreamIdentifier := Descriptor_StreamIdentifier d; Descriptor_Subtitling := Descriptor_Subtitling d; Descriptor_Tag := Descriptor_Tag d;
+  Descriptor_Teletext := Descriptor_Teletext d; Descriptor_Unknown := Descriptor_Unknown d; Descriptor_UserDefined := Descriptor_UserDefined d;
+  Descriptor_VBIData := Descriptor_VBIData d; Descriptor_VBITeletext := Descriptor_VBITeletext d |}.
+Definition set_MaximumBitrate (d : Descriptor) (v : DescriptorMaximumBitrate) : Descriptor := {|
+  Descriptor_AC3 := Descriptor_AC3 d; Descriptor_AVCVideo := Descriptor_AVCVideo d; Descriptor_Component := Descriptor_Component d; Descriptor_Content
+  := Descriptor_Content d; Descriptor_DataStreamAlignment := Descriptor_DataStreamAlignment d; Descriptor_EnhancedAC3 := Descriptor_EnhancedAC3 d;
+  Descriptor_ExtendedEvent := Descriptor_ExtendedEvent d; Descriptor_Extension := Descriptor_Extension d; Descriptor_ISO639LanguageAndAudioType :=
+  Descriptor_ISO639LanguageAndAudioType d; Descriptor_Length := Descriptor_Length d; Descriptor_LocalTimeOffset := Descriptor_LocalTimeOffset d;
+  Descriptor_MaximumBitrate := Some v; Descriptor_NetworkName := Descriptor_NetworkName d; Descriptor_ParentalRating := Descriptor_ParentalRating d;
+  Descriptor_PrivateDataIndicator := Descriptor_PrivateDataIndicator d; Descriptor_PrivateDataSpecifier := Descriptor_PrivateDataSpecifier d;
+  Descriptor_Registration := Descriptor_Registration d; Descriptor_Service := Descriptor_Service d; Descriptor_ShortEvent := Descriptor_ShortEvent d;
+  Descriptor_StreamIdentifier := Descriptor_StreamIdentifier d; Descriptor_Subtitling := Descriptor_Subtitling d; Descriptor_Tag := Descriptor_Tag d;
+  Descriptor_Teletext := Descriptor_Teletext d; Descriptor_Unknown := Descriptor_Unknown d; Descriptor_UserDefined := Descriptor_UserDefined d;
+  Descriptor_VBIData := Descriptor_VBIData d; Descriptor_VBITeletext := Descriptor_VBITeletext d |}.
+Definition set_NetworkName (d : Descriptor) (v : DescriptorNetworkName) : Descriptor := {|
+  Descriptor_AC3 := Descriptor_AC3 d; Descriptor_AVCVideo := Descriptor_AVCVideo d; Descriptor_Component := Descriptor_Component d; Descriptor_Content
+  := Descriptor_Content d; Descriptor_DataStreamAlignment := Descriptor_DataStreamAlignment d; Descriptor_EnhancedAC3 := Descriptor_EnhancedAC3 d;
+  Descriptor_ExtendedEvent := Descriptor_ExtendedEvent d; Descriptor_Extension := Descriptor_Extension d; Descriptor_ISO639LanguageAndAudioType :=
+  Descriptor_ISO639LanguageAndAudioType d; Descriptor_Length := Descriptor_Length d; Descriptor_LocalTimeOffset := Descriptor_LocalTimeOffset d;
+  Descriptor_MaximumBitrate := Descriptor_MaximumBitrate d; Descriptor_NetworkName := Some v; Descriptor_ParentalRating := Descriptor_ParentalRating
+  d; Descriptor_PrivateDataIndicator := Descriptor_PrivateDataIndicator d; Descriptor_PrivateDataSpecifier := Descriptor_PrivateDataSpecifier d;
+  Descriptor_Registration := Descriptor_Registration d; Descriptor_Service := Descriptor_Service d; Descriptor_ShortEvent := Descriptor_ShortEvent d;
+  Descriptor_StreamIdentifier := Descriptor_StreamIdentifier d; Descriptor_Subtitling := Descriptor_Subtitling d; Descriptor_Tag := Descriptor_Tag d;
+  Descriptor_Teletext := Descriptor_Teletext d; Descriptor_Unknown := Descriptor_Unknown d; Descriptor_UserDefined := Descriptor_UserDefined d;
+  Descriptor_VBIData := Descriptor_VBIData d; Descriptor_VBITeletext := Descriptor_VBITeletext d |}.
+Definition set_ParentalRating (d : Descriptor) (v : DescriptorParentalRating) : Descriptor := {|
+  Descriptor_AC3 := Descriptor_AC3 d; Descriptor_AVCVideo := Descriptor_AVCVideo d; Descriptor_Component := Descriptor_Component d; Descriptor_Content
+  := Descriptor_Content d; Descriptor_DataStreamAlignment := Descriptor_DataStreamAlignment d; Descriptor_EnhancedAC3 := Descriptor_EnhancedAC3 d;
+  Descriptor_ExtendedEvent := Descriptor_ExtendedEvent d; Descriptor_Extension := Descriptor_Extension d; Descriptor_ISO639LanguageAndAudioType :=
+  Descriptor_ISO639LanguageAndAudioType d; Descriptor_Length := Descriptor_Length d; Descriptor_LocalTimeOffset := Descriptor_LocalTimeOffset d;
+  Descriptor_MaximumBitrate := Descriptor_MaximumBitrate d; Descriptor_NetworkName := Descriptor_NetworkName d; Descriptor_ParentalRating := Some v;
+  Descriptor_PrivateDataIndicator := Descriptor_PrivateDataIndicator d; Descriptor_PrivateDataSpecifier := Descriptor_PrivateDataSpecifier d;
+  Descriptor_Registration := Descriptor_Registration d; Descriptor_Service := Descriptor_Service d; Descriptor_ShortEvent := Descriptor_ShortEvent d;
+  Descriptor_StreamIdentifier := Descriptor_StreamIdentifier d; Descriptor_Subtitling := Descriptor_Subtitling d; Descriptor_Tag := Descriptor_Tag d;
+  Descriptor_Teletext := Descriptor_Teletext d; Descriptor_Unknown := Descriptor_Unknown d; Descriptor_UserDefined := Descriptor_UserDefined d;
+  Descriptor_VBIData := Descriptor_VBIData d; Descriptor_VBITeletext := Descriptor_VBITeletext d |}.
+Definition set_PrivateDataIndicator (d : Descriptor) (v : DescriptorPrivateDataIndicator) : Descriptor := {|
+  Descriptor_AC3 := Descriptor_AC3 d; Descriptor_AVCVideo := Descriptor_AVCVideo d; Descriptor_Component := Descriptor_Component d; Descriptor_Content
+  := Descriptor_Content d; Descriptor_DataStreamAlignment := Descriptor_DataStreamAlignment d; Descriptor_EnhancedAC3 := Descriptor_EnhancedAC3 d;
+  Descriptor_ExtendedEvent := Descriptor_ExtendedEvent d; Descriptor_Extension := Descriptor_Extension d; Descriptor_ISO639LanguageAndAudioType :=
+  Descriptor_ISO639LanguageAndAudioType d; Descriptor_Length := Descriptor_Length d; Descriptor_LocalTimeOffset := Descriptor_LocalTimeOffset d;
+  Descriptor_MaximumBitrate := Descriptor_MaximumBitrate d; Descriptor_NetworkName := Descriptor_NetworkName d; Descriptor_ParentalRating :=
+  Descriptor_ParentalRating d; Descriptor_PrivateDataIndicator := Some v; Descriptor_PrivateDataSpecifier := Descriptor_PrivateDataSpecifier d;
+  Descriptor_Registration := Descriptor_Registration d; Descriptor_Service := Descriptor_Service d; Descriptor_ShortEvent := Descriptor_ShortEvent d;
+  Descriptor_StreamIdentifier := Descriptor_StreamIdentifier d; Descriptor_Subtitling := Descriptor_Subtitling d; Descriptor_Tag := Descriptor_Tag d;
+  Descriptor_Teletext := Descriptor_Teletext d; Descriptor_Unknown := Descriptor_Unknown d; Descriptor_UserDefined := Descriptor_UserDefined d;
+  Descriptor_VBIData := Descriptor_VBIData d; Descriptor_VBITeletext := Descriptor_VBITeletext d |}.
+Definition set_PrivateDataSpecifier (d : Descriptor) (v : DescriptorPrivateDataSpecifier) : Descriptor := {|
+  Descriptor_AC3 := Descriptor_AC3 d; Descriptor_AVCVideo := Descriptor_AVCVideo d; Descriptor_Component := Descriptor_Component d; Descriptor_Content
+  := Descriptor_Content d; Descriptor_DataStreamAlignment := Descriptor_DataStreamAlignment d; Descriptor_EnhancedAC3 := Descriptor_EnhancedAC3 d;
+  Descriptor_ExtendedEvent := Descriptor_ExtendedEvent d; Descriptor_Extension := Descriptor_Extension d; Descriptor_ISO639LanguageAndAudioType :=
+  Descriptor_ISO639LanguageAndAudioType d; Descriptor_Length := Descriptor_Length d; Descriptor_LocalTimeOffset := Descriptor_LocalTimeOffset d;
+  Descriptor_MaximumBitrate := Descriptor_MaximumBitrate d; Descriptor_NetworkName := Descriptor_NetworkName d; Descriptor_ParentalRating :=
+  Descriptor_ParentalRating d; Descriptor_PrivateDataIndicator := Descriptor_PrivateDataIndicator d; Descriptor_PrivateDataSpecifier := Some v;
+  Descriptor_Registration := Descriptor_Registration d; Descriptor_Service := Descriptor_Service d; Descriptor_ShortEvent := Descriptor_ShortEvent d;
+  Descriptor_StreamIdentifier := Descriptor_StreamIdentifier d; Descriptor_Subtitling := Descriptor_Subtitling d; Descriptor_Tag := Descriptor_Tag d;
+  Descriptor_Teletext := Descriptor_Teletext d; Descriptor_Unknown := Descriptor_Unknown d; Descriptor_UserDefined := Descriptor_UserDefined d;
+  Descriptor_VBIData := Descriptor_VBIData d; Descriptor_VBITeletext := Descriptor_VBITeletext d |}.
+Definition set_Registration (d : Descriptor) (v : DescriptorRegistration) : Descriptor := {|
+  Descriptor_AC3 := Descriptor_AC3 d; Descriptor_AVCVideo := Descriptor_AVCVideo d; Descriptor_Component := Descriptor_Component d; Descriptor_Content
+  := Descriptor_Content d; Descriptor_DataStreamAlignment := Descriptor_DataStreamAlignment d; Descriptor_EnhancedAC3 := Descriptor_EnhancedAC3 d;
+  Descriptor_ExtendedEvent := Descriptor_ExtendedEvent d; Descriptor_Extension := Descriptor_Extension d; Descriptor_ISO639LanguageAndAudioType :=
+  Descriptor_ISO639LanguageAndAudioType d; Descriptor_Length := Descriptor_Length d; Descriptor_LocalTimeOffset := Descriptor_LocalTimeOffset d;
+  Descriptor_MaximumBitrate := Descriptor_MaximumBitrate d; Descriptor_NetworkName := Descriptor_NetworkName d; Descriptor_ParentalRating :=
+  Descriptor_ParentalRating d; Descriptor_PrivateDataIndicator := Descriptor_PrivateDataIndicator d; Descriptor_PrivateDataSpecifier :=
+  Descriptor_PrivateDataSpecifier d; Descriptor_Registration := Some v; Descriptor_Service := Descriptor_Service d; Descriptor_ShortEvent :=
+  Descriptor_ShortEvent d; Descriptor_StreamIdentifier := Descriptor_StreamIdentifier d; Descriptor_Subtitling := Descriptor_Subtitling d;
+  Descriptor_Tag := Descriptor_Tag d; Descriptor_Teletext := Descriptor_Teletext d; Descriptor_Unknown := Descriptor_Unknown d; Descriptor_UserDefined
+  := Descriptor_UserDefined d; Descriptor_VBIData := Descriptor_VBIData d; Descriptor_VBITeletext := Descriptor_VBITeletext d |}.
+Definition set_Service (d : Descriptor) (v : DescriptorService) : Descriptor := {|
+  Descriptor_AC3 := Descriptor_AC3 d; Descriptor_AVCVideo := Descriptor_AVCVideo d; Descriptor_Component := Descriptor_Component d; Descriptor_Content
+  := Descriptor_Content d; Descriptor_DataStreamAlignment := Descriptor_DataStreamAlignment d; Descriptor_EnhancedAC3 := Descriptor_EnhancedAC3 d;
+  Descriptor_ExtendedEvent := Descriptor_ExtendedEvent d; Descriptor_Extension := Descriptor_Extension d; Descriptor_ISO639LanguageAndAudioType :=
+  Descriptor_ISO639LanguageAndAudioType d; Descriptor_Length := Descriptor_Length d; Descriptor_LocalTimeOffset := Descriptor_LocalTimeOffset d;
+  Descriptor_MaximumBitrate := Descriptor_MaximumBitrate d; Descriptor_NetworkName := Descriptor_NetworkName d; Descriptor_ParentalRating :=
+  Descriptor_ParentalRating d; Descriptor_PrivateDataIndicator := Descriptor_PrivateDataIndicator d; Descriptor_PrivateDataSpecifier :=
+  Descriptor_PrivateDataSpecifier d; Descriptor_Registration := Descriptor_Registration d; Descriptor_Service := Some v; Descriptor_ShortEvent :=
+  Descriptor_ShortEvent d; Descriptor_StreamIdentifier := Descriptor_StreamIdentifier d; Descriptor_Subtitling := Descriptor_Subtitling d;
+  Descriptor_Tag := Descriptor_Tag d; Descriptor_Teletext := Descriptor_Teletext d; Descriptor_Unknown := Descriptor_Unknown d; Descriptor_UserDefined
+  := Descriptor_UserDefined d; Descriptor_VBIData := Descriptor_VBIData d; Descriptor_VBITeletext := Descriptor_VBITeletext d |}.
+Definition set_ShortEvent (d : Descriptor) (v : DescriptorShortEvent) : Descriptor := {|
+  Descriptor_AC3 := Descriptor_AC3 d; Descriptor_AVCVideo := Descriptor_AVCVideo d; Descriptor_Component := Descriptor_Component d; Descriptor_Content
+  := Descriptor_Content d; Descriptor_DataStreamAlignment := Descriptor_DataStreamAlignment d; Descriptor_EnhancedAC3 := Descriptor_EnhancedAC3 d;
+  Descriptor_ExtendedEvent := Descriptor_ExtendedEvent d; Descriptor_Extension := Descriptor_Extension d; Descriptor_ISO639LanguageAndAudioType :=
+  Descriptor_ISO639LanguageAndAudioType d; Descriptor_Length := Descriptor_Length d; Descriptor_LocalTimeOffset := Descriptor_LocalTimeOffset d;
+  Descriptor_MaximumBitrate := Descriptor_MaximumBitrate d; Descriptor_NetworkName := Descriptor_NetworkName d; Descriptor_ParentalRating :=
+  Descriptor_ParentalRating d; Descriptor_PrivateDataIndicator := Descriptor_PrivateDataIndicator d; Descriptor_PrivateDataSpecifier :=
+  Descriptor_PrivateDataSpecifier d; Descriptor_Registration := Descriptor_Registration d; Descriptor_Service := Descriptor_Service d;
+  Descriptor_ShortEvent := Some v; Descriptor_StreamIdentifier := Descriptor_StreamIdentifier d; Descriptor_Subtitling := Descriptor_Subtitling d;
+  Descriptor_Tag := Descriptor_Tag d; Descriptor_Teletext := Descriptor_Teletext d; Descriptor_Unknown := Descriptor_Unknown d; Descriptor_UserDefined
+  := Descriptor_UserDefined d; Descriptor_VBIData := Descriptor_VBIData d; Descriptor_VBITeletext := Descriptor_VBITeletext d |}.
+Definition set_StreamIdentifier (d : Descriptor) (v : DescriptorStreamIdentifier) : Descriptor := {|
+  Descriptor_AC3 := Descriptor_AC3 d; Descriptor_AVCVideo := Descriptor_AVCVideo d; Descriptor_Component := Descriptor_Component d; Descriptor_Content
+  := Descriptor_Content d; Descriptor_DataStreamAlignment := Descriptor_DataStreamAlignment d; Descriptor_EnhancedAC3 := Descriptor_EnhancedAC3 d;
+  Descriptor_ExtendedEvent := Descriptor_ExtendedEvent d; Descriptor_Extension := Descriptor_Extension d; Descriptor_ISO639LanguageAndAudioType :=
+  Descriptor_ISO639LanguageAndAudioType d; Descriptor_Length := Descriptor_Length d; Descriptor_LocalTimeOffset := Descriptor_LocalTimeOffset d;
+  Descriptor_MaximumBitrate := Descriptor_MaximumBitrate d; Descriptor_NetworkName := Descriptor_NetworkName d; Descriptor_ParentalRating :=
+  Descriptor_ParentalRating d; Descriptor_PrivateDataIndicator := Descriptor_PrivateDataIndicator d; Descriptor_PrivateDataSpecifier :=
+  Descriptor_PrivateDataSpecifier d; Descriptor_Registration := Descriptor_Registration d; Descriptor_Service := Descriptor_Service d;
+  Descriptor_ShortEvent := Descriptor_ShortEvent d; Descriptor_StreamIdentifier := Some v; Descriptor_Subtitling := Descriptor_Subtitling d;
+  Descriptor_Tag := Descriptor_Tag d; Descriptor_Teletext := Descriptor_Teletext d; Descriptor_Unknown := Descriptor_Unknown d; Descriptor_UserDefined
+  := Descriptor_UserDefined d; Descriptor_VBIData := Descriptor_VBIData d; Descriptor_VBITeletext := Descriptor_VBITeletext d |}.
+Definition set_Subtitling (d : Descriptor) (v : DescriptorSubtitling) : Descriptor := {|
+  Descriptor_AC3 := Descriptor_AC3 d; Descriptor_AVCVideo := Descriptor_AVCVideo d; Descriptor_Component := Descriptor_Component d; Descriptor_Content
+  := Descriptor_Content d; Descriptor_DataStreamAlignment := Descriptor_DataStreamAlignment d; Descriptor_EnhancedAC3 := Descriptor_EnhancedAC3 d;
+  Descriptor_ExtendedEvent := Descriptor_ExtendedEvent d; Descriptor_Extension := Descriptor_Extension d; Descriptor_ISO639LanguageAndAudioType :=
+  Descriptor_ISO639LanguageAndAudioType d; Descriptor_Length := Descriptor_Length d; Descriptor_LocalTimeOffset := Descriptor_LocalTimeOffset d;
+  Descriptor_MaximumBitrate := Descriptor_MaximumBitrate d; Descriptor_NetworkName := Descriptor_NetworkName d; Descriptor_ParentalRating :=
+  Descriptor_ParentalRating d; Descriptor_PrivateDataIndicator := Descriptor_PrivateDataIndicator d; Descriptor_PrivateDataSpecifier :=
+  Descriptor_PrivateDataSpecifier d; Descriptor_Registration := Descriptor_Registration d; Descriptor_Service := Descriptor_Service d;
+  Descriptor_ShortEvent := Descriptor_ShortEvent d; Descriptor_StreamIdentifier := Descriptor_StreamIdentifier d; Descriptor_Subtitling := Some v;
+  Descriptor_Tag := Descriptor_Tag d; Descriptor_Teletext := Descriptor_Teletext d; Descriptor_Unknown := Descriptor_Unknown d; Descriptor_UserDefined
+  := Descriptor_UserDefined d; Descriptor_VBIData := Descriptor_VBIData d; Descriptor_VBITeletext := Descriptor_VBITeletext d |}.
+Definition set_Teletext (d : Descriptor) (v : DescriptorTeletext) : Descriptor := {|
+  Descriptor_AC3 := Descriptor_AC3 d; Descriptor_AVCVideo := Descriptor_AVCVideo d; Descriptor_Component := Descriptor_Component d; Descriptor_Content
+  := Descriptor_Content d; Descriptor_DataStreamAlignment := Descriptor_DataStreamAlignment d; Descriptor_EnhancedAC3 := Descriptor_EnhancedAC3 d;
+  Descriptor_ExtendedEvent := Descriptor_ExtendedEvent d; Descriptor_Extension := Descriptor_Extension d; Descriptor_ISO639LanguageAndAudioType :=
+  Descriptor_ISO639LanguageAndAudioType d; Descriptor_Length := Descriptor_Length d; Descriptor_LocalTimeOffset := Descriptor_LocalTimeOffset d;
+  Descriptor_MaximumBitrate := Descriptor_MaximumBitrate d; Descriptor_NetworkName := Descriptor_NetworkName d; Descriptor_ParentalRating :=
+  Descriptor_ParentalRating d; Descriptor_PrivateDataIndicator := Descriptor_PrivateDataIndicator d; Descriptor_PrivateDataSpecifier :=
+  Descriptor_PrivateDataSpecifier d; Descriptor_Registration := Descriptor_Registration d; Descriptor_Service := Descriptor_Service d;
+  Descriptor_ShortEvent := Descriptor_ShortEvent d; Descriptor_StreamIdentifier := Descriptor_StreamIdentifier d; Descriptor_Subtitling :=
+  Descriptor_Subtitling d; Descriptor_Tag := Descriptor_Tag d; Descriptor_Teletext := Some v; Descriptor_Unknown := Descriptor_Unknown d;
+  Descriptor_UserDefined := Descriptor_UserDefined d; Descriptor_VBIData := Descriptor_VBIData d; Descriptor_VBITeletext := Descriptor_VBITeletext d |}.
+Definition set_Unknown (d : Descriptor) (v : DescriptorUnknown) : Descriptor := {|
+  Descriptor_AC3 := Descriptor_AC3 d; Descriptor_AVCVideo := Descriptor_AVCVideo d; Descriptor_Component := Descriptor_Component d; Descriptor_Content
+  := Descriptor_Content d; Descriptor_DataStreamAlignment := Descriptor_DataStreamAlignment d; Descriptor_EnhancedAC3 := Descriptor_EnhancedAC3 d;
+  Descriptor_ExtendedEvent := Descriptor_ExtendedEvent d; Descriptor_Extension := Descriptor_Extension d; Descriptor_ISO639LanguageAndAudioType :=
+  Descriptor_ISO639LanguageAndAudioType d; Descriptor_Length := Descriptor_Length d; Descriptor_LocalTimeOffset := Descriptor_LocalTimeOffset d;
+  Descriptor_MaximumBitrate := Descriptor_MaximumBitrate d; Descriptor_NetworkName := Descriptor_NetworkName d; Descriptor_ParentalRating :=
+  Descriptor_ParentalRating d; Descriptor_PrivateDataIndicator := Descriptor_PrivateDataIndicator d; Descriptor_PrivateDataSpecifier :=
+  Descriptor_PrivateDataSpecifier d; Descriptor_Registration := Descriptor_Registration d; Descriptor_Service := Descriptor_Service d;
+  Descriptor_ShortEvent := Descriptor_ShortEvent d; Descriptor_StreamIdentifier := Descriptor_StreamIdentifier d; Descriptor_Subtitling :=
+  Descriptor_Subtitling d; Descriptor_Tag := Descriptor_Tag d; Descriptor_Teletext := Descriptor_Teletext d; Descriptor_Unknown := Some v;
+  Descriptor_UserDefined := Descriptor_UserDefined d; Descriptor_VBIData := Descriptor_VBIData d; Descriptor_VBITeletext := Descriptor_VBITeletext d |}.
+Definition set_UserDefined (d : Descriptor) (v : list Z) : Descriptor := {|
+  Descriptor_AC3 := Descriptor_AC3 d; Descriptor_AVCVideo := Descriptor_AVCVideo d; Descriptor_Component := Descriptor_Component d; Descriptor_Content
+  := Descriptor_Content d; Descriptor_DataStreamAlignment := Descriptor_DataStreamAlignment d; Descriptor_EnhancedAC3 := Descriptor_EnhancedAC3 d;
+  Descriptor_ExtendedEvent := Descriptor_ExtendedEvent d; Descriptor_Extension := Descriptor_Extension d; Descriptor_ISO639LanguageAndAudioType :=
+  Descriptor_ISO639LanguageAndAudioType d; Descriptor_Length := Descriptor_Length d; Descriptor_LocalTimeOffset := Descriptor_LocalTimeOffset d;
+  Descriptor_MaximumBitrate := Descriptor_MaximumBitrate d; Descriptor_NetworkName := Descriptor_NetworkName d; Descriptor_ParentalRating :=
+  Descriptor_ParentalRating d; Descriptor_PrivateDataIndicator := Descriptor_PrivateDataIndicator d; Descriptor_PrivateDataSpecifier :=
+  Descriptor_PrivateDataSpecifier d; Descriptor_Registration := Descriptor_Registration d; Descriptor_Service := Descriptor_Service d;
+  Descriptor_ShortEvent := Descriptor_ShortEvent d; Descriptor_StreamIdentifier := Descriptor_StreamIdentifier d; Descriptor_Subtitling :=
+  Descriptor_Subtitling d; Descriptor_Tag := Descriptor_Tag d; Descriptor_Teletext := Descriptor_Teletext d; Descriptor_Unknown := Descriptor_Unknown
+  d; Descriptor_UserDefined := v; Descriptor_VBIData := Descriptor_VBIData d; Descriptor_VBITeletext := Descriptor_VBITeletext d |}.
+Definition set_VBIData (d : Descriptor) (v : DescriptorVBIData) : Descriptor := {|
+  Descriptor_AC3 := Descriptor_AC3 d; Descriptor_AVCVideo := Descriptor_AVCVideo d; Descriptor_Component := Descriptor_Component d; Descriptor_Content
+  := Descriptor_Content d; Descriptor_DataStreamAlignment := Descriptor_DataStreamAlignment d; Descriptor_EnhancedAC3 := Descriptor_EnhancedAC3 d;
+  Descriptor_ExtendedEvent := Descriptor_ExtendedEvent d; Descriptor_Extension := Descriptor_Extension d; Descriptor_ISO639LanguageAndAudioType :=
+  Descriptor_ISO639LanguageAndAudioType d; Descriptor_Length := Descriptor_Length d; Descriptor_LocalTimeOffset := Descriptor_LocalTimeOffset d;
+  Descriptor_MaximumBitrate := Descriptor_MaximumBitrate d; Descriptor_NetworkName := Descriptor_NetworkName d; Descriptor_ParentalRating :=
+  Descriptor_ParentalRating d; Descriptor_PrivateDataIndicator := Descriptor_PrivateDataIndicator d; Descriptor_PrivateDataSpecifier :=
+  Descriptor_PrivateDataSpecifier d; Descriptor_Registration := Descriptor_Registration d; Descriptor_Service := Descriptor_Service d;
+  Descriptor_ShortEvent := Descriptor_ShortEvent d; Descriptor_StreamIdentifier := Descriptor_StreamIdentifier d; Descriptor_Subtitling :=
+  Descriptor_Subtitling d; Descriptor_Tag := Descriptor_Tag d; Descriptor_Teletext := Descriptor_Teletext d; Descriptor_Unknown := Descriptor_Unknown
+  d; Descriptor_UserDefined := Descriptor_UserDefined d; Descriptor_VBIData := Some v; Descriptor_VBITeletext := Descriptor_VBITeletext d |}.
+Definition set_VBITeletext (d : Descriptor) (v : DescriptorTeletext) : Descriptor := {|
+  Descriptor_AC3 := Descriptor_AC3 d; Descriptor_AVCVideo := Descriptor_AVCVideo d; Descriptor_Component := Descriptor_Component d; Descriptor_Content
+  := Descriptor_Content d; Descriptor_DataStreamAlignment := Descriptor_DataStreamAlignment d; Descriptor_EnhancedAC3 := Descriptor_EnhancedAC3 d;
+  Descriptor_ExtendedEvent := Descriptor_ExtendedEvent d; Descriptor_Extension := Descriptor_Extension d; Descriptor_ISO639LanguageAndAudioType :=
+  Descriptor_ISO639LanguageAndAudioType d; Descriptor_Length := Descriptor_Length d; Descriptor_LocalTimeOffset := Descriptor_LocalTimeOffset d;
+  Descriptor_MaximumBitrate := Descriptor_MaximumBitrate d; Descriptor_NetworkName := Descriptor_NetworkName d; Descriptor_ParentalRating :=
+  Descriptor_ParentalRating d; Descriptor_PrivateDataIndicator := Descriptor_PrivateDataIndicator d; Descriptor_PrivateDataSpecifier :=
+  Descriptor_PrivateDataSpecifier d; Descriptor_Registration := Descriptor_Registration d; Descriptor_Service := Descriptor_Service d;
+  Descriptor_ShortEvent := Descriptor_ShortEvent d; Descriptor_StreamIdentifier := Descriptor_StreamIdentifier d; Descriptor_Subtitling :=
+  Descriptor_Subtitling d; Descriptor_Tag := Descriptor_Tag d; Descriptor_Teletext := Descriptor_Teletext d; Descriptor_Unknown := Descriptor_Unknown
+  d; Descriptor_UserDefined := Descriptor_UserDefined d; Descriptor_VBIData := Descriptor_VBIData d; Descriptor_VBITeletext := Some v |}.
+
+(* ---------------- parseDescriptors ---------------- *)
+
+Definition is_user_defined (tag : Z) : bool := (128 <=? tag) && (tag <=? 254).
+
+(* the tag switch of parseDescriptors: the typed body for (tag, length), read with offsetEnd = the declared end *)
+Definition parse_descriptor_body (tag len offsetEnd : Z) : IM Descriptor :=
+  let d0 := desc_hdr tag len in
+  if is_user_defined tag then bs <- next_bytes len ;; iret (set_UserDefined d0 bs)
+  else if tag =? C_DescriptorTagAC3 then v <- new_descriptor_ac3 offsetEnd ;; iret (set_AC3 d0 v)
+  else if tag =? C_DescriptorTagAVCVideo then v <- new_descriptor_avc_video ;; iret (set_AVCVideo d0 v)
+  else if tag =? C_DescriptorTagComponent then v <- new_descriptor_component offsetEnd ;; iret (set_Component d0 v)
+  else if tag =? C_DescriptorTagContent then v <- new_descriptor_content offsetEnd ;; iret (set_Content d0 v)
+  else if tag =? C_DescriptorTagDataStreamAlignment then v <- new_descriptor_data_stream_alignment ;; iret (set_DataStreamAlignment d0 v)
+  else if tag =? C_DescriptorTagEnhancedAC3 then v <- new_descriptor_enhanced_ac3 offsetEnd ;; iret (set_EnhancedAC3 d0 v)
+  else if tag =? C_DescriptorTagExtendedEvent then v <- new_descriptor_extended_event ;; iret (set_ExtendedEvent d0 v)
+  else if tag =? C_DescriptorTagExtension then v <- new_descriptor_extension offsetEnd ;; iret (set_Extension d0 v)
+  else if tag =? C_DescriptorTagISO639LanguageAndAudioType then v <- new_descriptor_iso639 offsetEnd ;; iret (set_ISO639LanguageAndAudioType d0 v)
+  else if tag =? C_DescriptorTagLocalTimeOffset then v <- new_descriptor_local_time_offset offsetEnd ;; iret (set_LocalTimeOffset d0 v)
+  else if tag =? C_DescriptorTagMaximumBitrate then v <- new_descriptor_maximum_bitrate ;; iret (set_MaximumBitrate d0 v)
+  else if tag =? C_DescriptorTagNetworkName then v <- new_descriptor_network_name offsetEnd ;; iret (set_NetworkName d0 v)
+  else if tag =? C_DescriptorTagParentalRating then v <- new_descriptor_parental_rating offsetEnd ;; iret (set_ParentalRating d0 v)
+  else if tag =? C_DescriptorTagPrivateDataIndicator then v <- new_descriptor_private_data_indicator ;; iret (set_PrivateDataIndicator d0 v)
+  else if tag =? C_DescriptorTagPrivateDataSpecifier then v <- new_descriptor_private_data_specifier ;; iret (set_PrivateDataSpecifier d0 v)
+  else if tag =? C_DescriptorTagRegistration then v <- new_descriptor_registration offsetEnd ;; iret (set_Registration d0 v)
+  else if tag =? C_DescriptorTagService then v <- new_descriptor_service ;; iret (set_Service d0 v)
+  else if tag =? C_DescriptorTagShortEvent then v <- new_descriptor_short_event ;; iret (set_ShortEvent d0 v)
+  else if tag =? C_DescriptorTagStreamIdentifier then v <- new_descriptor_stream_identifier ;; iret (set_StreamIdentifier d0 v)
+  else if tag =? C_DescriptorTagSubtitling then v <- new_descriptor_subtitling offsetEnd ;; iret (set_Subtitling d0 v)
+  else if tag =? C_DescriptorTagTeletext then v <- new_descriptor_teletext offsetEnd ;; iret (set_Teletext d0 v)
+  else if tag =? C_DescriptorTagVBIData then v <- new_descriptor_vbi_data offsetEnd ;; iret (set_VBIData d0 v)
+  else if tag =? C_DescriptorTagVBITeletext then v <- new_descriptor_teletext offsetEnd ;; iret (set_VBITeletext d0 v)
+  else v <- new_descriptor_unknown tag len ;; iret (set_Unknown d0 v).
+
+(* one round of the loop of parseDescriptors, with the body parser as an argument: tag and length byte, the
+   body when the length is positive, then Seek(offsetDescriptorEnd) *)
+Definition parse_descriptor_with (body : Z -> Z -> Z -> IM Descriptor) : IM Descriptor :=
   bs <- next_bytes_nocopy 2 ;;
   let tag := byte_at bs 0 in
   let len := byte_at bs 1 in
   if len >? 0 then
     off <- ioffset ;;
-    let offsetDescriptorEnd := off + len in
-    d <- (if is_user_tag tag then
-            ud <- next_bytes len ;; iret (mk_plain_descriptor tag len None ud)
-          else if is_typed_tag tag then ierr E_stub
-          else
-            c <- next_bytes len ;;
-            iret (mk_plain_descriptor tag len
-                    (Some {| DescriptorUnknown_Content := c; DescriptorUnknown_Tag := tag |}) [])) ;;
-    iseek offsetDescriptorEnd ;;;
+    d <- body tag len (off + len) ;;
+    iseek (off + len) ;;;
     iret d
-  else iret (mk_plain_descriptor tag len None []).
+  else iret (desc_hdr tag len).
 
-Fixpoint desc_loop (fuel : nat) (offsetEnd : Z) : IM (list Descriptor) :=
-  match fuel with
-  | O => ierr E_desc_fuel
-  | S k =>
-      off <- ioffset ;;
-      if off <? offsetEnd then
-        d <- parse_descriptor ;;
-        r <- desc_loop k offsetEnd ;;
-        iret (d :: r)
-      else iret []
-  end.
-
-(* parseDescriptors: 12-bit loop length, then descriptors until the end offset *)
-Definition parse_descriptors : IM (list Descriptor) :=
+Definition parse_descriptors_with (body : Z -> Z -> Z -> IM Descriptor) : IM (list Descriptor) :=
   bs <- next_bytes_nocopy 2 ;;
   let length := bitsf bs 4 12 in
   if length >? 0 then
     off <- ioffset ;;
-    n <- ilength ;;
-    desc_loop (S (Z.to_nat n)) (off + length)
+    iloop (off + length) (parse_descriptor_with body)
   else iret [].
 
-(* calcDescriptorLength (uint8) *)
+Definition parse_descriptors : IM (list Descriptor) := parse_descriptors_with parse_descriptor_body.
+
+(* ---------------- calcDescriptor*Length (hand-written part) ---------------- *)
+
+Definition calc_user_defined_length (d : list Z) : Z := (blen d) mod 256.
+
+Definition calc_extension_length (d : option DescriptorExtension) : Z :=
+  match d with
+  | None => 0
+  | Some e =>
+      let ret := 1 in
+      let ret := if DescriptorExtension_Tag e =? C_DescriptorTagExtensionSupplementaryAudio
+                 then ret + calcDescriptorExtensionSupplementaryAudioLength (DescriptorExtension_SupplementaryAudio e)
+                 else match DescriptorExtension_Unknown e with Some bs => ret + blen bs | None => ret end in
+      ret mod 256
+  end.
+
 Definition calc_descriptor_length (d : Descriptor) : Z :=
-  if is_user_tag (Descriptor_Tag d) then Z.of_nat (length (Descriptor_UserDefined d)) mod 256
-  else match Descriptor_Unknown d with
-       | None => 0
-       | Some u => Z.of_nat (length (DescriptorUnknown_Content u)) mod 256
-       end.
-
-(* calcDescriptorsLength (uint16) *)
-Definition calc_descriptors_length (ds : list Descriptor) : Z :=
-  fold_left (fun acc d => ((acc + 2) mod 65536 + calc_descriptor_length d) mod 65536) ds 0.
-
-(* writeDescriptor *)
-Definition enc_descriptor (d : Descriptor) : res (list witem) :=
   let tag := Descriptor_Tag d in
-  let len := calc_descriptor_length d in
-  let head := [wu8 tag; wu8 len] in
-  if is_typed_tag tag && negb (is_user_tag tag) then Err E_stub else
-  if len =? 0 then Ok head else
-  if is_user_tag tag then Ok (head ++ [WBytes (Descriptor_UserDefined d)])
-  else match Descriptor_Unknown d with
-       | None => Panic
-       | Some u => Ok (head ++ [WBytes (DescriptorUnknown_Content u)])
-       end.
+  if is_user_defined tag then calc_user_defined_length (Descriptor_UserDefined d)
+  else if tag =? C_DescriptorTagAC3 then calcDescriptorAC3Length (Descriptor_AC3 d)
+  else if tag =? C_DescriptorTagAVCVideo then calcDescriptorAVCVideoLength (Descriptor_AVCVideo d)
+  else if tag =? C_DescriptorTagComponent then calcDescriptorComponentLength (Descriptor_Component d)
+  else if tag =? C_DescriptorTagContent then calcDescriptorContentLength (Descriptor_Content d)
+  else if tag =? C_DescriptorTagDataStreamAlignment then calcDescriptorDataStreamAlignmentLength (Descriptor_DataStreamAlignment d)
+  else if tag =? C_DescriptorTagEnhancedAC3 then calcDescriptorEnhancedAC3Length (Descriptor_EnhancedAC3 d)
+  else if tag =? C_DescriptorTagExtendedEvent then fst (calcDescriptorExtendedEventLength (Descriptor_ExtendedEvent d))
+  else if tag =? C_DescriptorTagExtension then calc_extension_length (Descriptor_Extension d)
+  else if tag =? C_DescriptorTagISO639LanguageAndAudioType then calcDescriptorISO639LanguageAndAudioTypeLength (Descriptor_ISO639LanguageAndAudioType d)
+  else if tag =? C_DescriptorTagLocalTimeOffset then calcDescriptorLocalTimeOffsetLength (Descriptor_LocalTimeOffset d)
+  else if tag =? C_DescriptorTagMaximumBitrate then calcDescriptorMaximumBitrateLength (Descriptor_MaximumBitrate d)
+  else if tag =? C_DescriptorTagNetworkName then calcDescriptorNetworkNameLength (Descriptor_NetworkName d)
+  else if tag =? C_DescriptorTagParentalRating then calcDescriptorParentalRatingLength (Descriptor_ParentalRating d)
+  else if tag =? C_DescriptorTagPrivateDataIndicator then calcDescriptorPrivateDataIndicatorLength (Descriptor_PrivateDataIndicator d)
+  else if tag =? C_DescriptorTagPrivateDataSpecifier then calcDescriptorPrivateDataSpecifierLength (Descriptor_PrivateDataSpecifier d)
+  else if tag =? C_DescriptorTagRegistration then calcDescriptorRegistrationLength (Descriptor_Registration d)
+  else if tag =? C_DescriptorTagService then calcDescriptorServiceLength (Descriptor_Service d)
+  else if tag =? C_DescriptorTagShortEvent then calcDescriptorShortEventLength (Descriptor_ShortEvent d)
+  else if tag =? C_DescriptorTagStreamIdentifier then calcDescriptorStreamIdentifierLength (Descriptor_StreamIdentifier d)
+  else if tag =? C_DescriptorTagSubtitling then calcDescriptorSubtitlingLength (Descriptor_Subtitling d)
+  else if tag =? C_DescriptorTagTeletext then calcDescriptorTeletextLength (Descriptor_Teletext d)
+  else if tag =? C_DescriptorTagVBIData then calcDescriptorVBIDataLength (Descriptor_VBIData d)
+  else if tag =? C_DescriptorTagVBITeletext then calcDescriptorTeletextLength (Descriptor_VBITeletext d)
+  else calcDescriptorUnknownLength (Descriptor_Unknown d).
 
-(* writeDescriptors *)
+(* uint16 accumulation *)
+Definition calc_descriptors_length (ds : list Descriptor) : Z :=
+  fold_left (fun length d => (((length + 2) mod 65536) + calc_descriptor_length d) mod 65536) ds 0.
+
+(* ---------------- writeDescriptor<X> ---------------- *)
+
+Definition wif (c : bool) (l : list witem) : list witem := if c then l else [].
+
+Definition enc_ac3 (d : DescriptorAC3) : list witem :=
+  [WBool (DescriptorAC3_HasComponentType d); WBool (DescriptorAC3_HasBSID d);
+   WBool (DescriptorAC3_HasMainID d); WBool (DescriptorAC3_HasASVC d); WBits 4 255] ++
+  wif (DescriptorAC3_HasComponentType d) [wu8 (DescriptorAC3_ComponentType d)] ++
+  wif (DescriptorAC3_HasBSID d) [wu8 (DescriptorAC3_BSID d)] ++
+  wif (DescriptorAC3_HasMainID d) [wu8 (DescriptorAC3_MainID d)] ++
+  wif (DescriptorAC3_HasASVC d) [wu8 (DescriptorAC3_ASVC d)] ++
+  [WBytes (DescriptorAC3_AdditionalInfo d)].
+
+Definition enc_avc_video (d : DescriptorAVCVideo) : list witem :=
+  [wu8 (DescriptorAVCVideo_ProfileIDC d);
+   WBool (DescriptorAVCVideo_ConstraintSet0Flag d); WBool (DescriptorAVCVideo_ConstraintSet1Flag d);
+   WBool (DescriptorAVCVideo_ConstraintSet2Flag d); WBits 5 (DescriptorAVCVideo_CompatibleFlags d);
+   wu8 (DescriptorAVCVideo_LevelIDC d);
+   WBool (DescriptorAVCVideo_AVCStillPresent d); WBool (DescriptorAVCVideo_AVC24HourPictureFlag d); WBits 6 255].
+
+Definition enc_component (d : DescriptorComponent) : list witem :=
+  [WBits 4 (DescriptorComponent_StreamContentExt d); WBits 4 (DescriptorComponent_StreamContent d);
+   wu8 (DescriptorComponent_ComponentType d); wu8 (DescriptorComponent_ComponentTag d)] ++
+  wbytesn (DescriptorComponent_ISO639LanguageCode d) 3 0 ++
+  [WBytes (DescriptorComponent_Text d)].
+
+Definition enc_content_item (it : DescriptorContentItem) : list witem :=
+  [WBits 4 (DescriptorContentItem_ContentNibbleLevel1 it); WBits 4 (DescriptorContentItem_ContentNibbleLevel2 it);
+   wu8 (DescriptorContentItem_UserByte it)].
+Definition enc_content (d : DescriptorContent) : list witem :=
+  flat_map enc_content_item (DescriptorContent_Items d).
+
+Definition enc_data_stream_alignment (d : DescriptorDataStreamAlignment) : list witem :=
+  [wu8 (DescriptorDataStreamAlignment_Type d)].
+
+Definition enc_enhanced_ac3 (d : DescriptorEnhancedAC3) : list witem :=
+  [WBool (DescriptorEnhancedAC3_HasComponentType d); WBool (DescriptorEnhancedAC3_HasBSID d);
+   WBool (DescriptorEnhancedAC3_HasMainID d); WBool (DescriptorEnhancedAC3_HasASVC d);
+   WBool (DescriptorEnhancedAC3_MixInfoExists d); WBool (DescriptorEnhancedAC3_HasSubStream1 d);
+   WBool (DescriptorEnhancedAC3_HasSubStream2 d); WBool (DescriptorEnhancedAC3_HasSubStream3 d)] ++
+  wif (DescriptorEnhancedAC3_HasComponentType d) [wu8 (DescriptorEnhancedAC3_ComponentType d)] ++
+  wif (DescriptorEnhancedAC3_HasBSID d) [wu8 (DescriptorEnhancedAC3_BSID d)] ++
+  wif (DescriptorEnhancedAC3_HasMainID d) [wu8 (DescriptorEnhancedAC3_MainID d)] ++
+  wif (DescriptorEnhancedAC3_HasASVC d) [wu8 (DescriptorEnhancedAC3_ASVC d)] ++
+  wif (DescriptorEnhancedAC3_HasSubStream1 d) [wu8 (DescriptorEnhancedAC3_SubStream1 d)] ++
+  wif (DescriptorEnhancedAC3_HasSubStream2 d) [wu8 (DescriptorEnhancedAC3_SubStream2 d)] ++
+  wif (DescriptorEnhancedAC3_HasSubStream3 d) [wu8 (DescriptorEnhancedAC3_SubStream3 d)] ++
+  [WBytes (DescriptorEnhancedAC3_AdditionalInfo d)].
+
+Definition enc_extended_event_item (it : DescriptorExtendedEventItem) : list witem :=
+  [wu8 (blen (DescriptorExtendedEventItem_Description it)); WBytes (DescriptorExtendedEventItem_Description it);
+   wu8 (blen (DescriptorExtendedEventItem_Content it)); WBytes (DescriptorExtendedEventItem_Content it)].
+
+Definition enc_extended_event (d : DescriptorExtendedEvent) : list witem :=
+  let lengthOfItems := snd (calcDescriptorExtendedEventLength (Some d)) in
+  [WBits 4 (DescriptorExtendedEvent_Number d); WBits 4 (DescriptorExtendedEvent_LastDescriptorNumber d)] ++
+  wbytesn (DescriptorExtendedEvent_ISO639LanguageCode d) 3 0 ++
+  [wu8 lengthOfItems] ++
+  flat_map enc_extended_event_item (DescriptorExtendedEvent_Items d) ++
+  [wu8 (blen (DescriptorExtendedEvent_Text d)); WBytes (DescriptorExtendedEvent_Text d)].
+
+Definition enc_extension_supplementary_audio (d : DescriptorExtensionSupplementaryAudio) : list witem :=
+  [WBool (DescriptorExtensionSupplementaryAudio_MixType d);
+   WBits 5 (DescriptorExtensionSupplementaryAudio_EditorialClassification d);
+   WBool true; WBool (DescriptorExtensionSupplementaryAudio_HasLanguageCode d)] ++
+  wif (DescriptorExtensionSupplementaryAudio_HasLanguageCode d)
+      (wbytesn (DescriptorExtensionSupplementaryAudio_LanguageCode d) 3 0) ++
+  [WBytes (DescriptorExtensionSupplementaryAudio_PrivateData d)].
+
+Definition enc_extension (d : DescriptorExtension) : res (list witem) :=
+  if DescriptorExtension_Tag d =? C_DescriptorTagExtensionSupplementaryAudio then
+    res_map (fun sa => wu8 (DescriptorExtension_Tag d) :: enc_extension_supplementary_audio sa)
+            (dneed (DescriptorExtension_SupplementaryAudio d))
+  else Ok (wu8 (DescriptorExtension_Tag d) ::
+           match DescriptorExtension_Unknown d with Some bs => [WBytes bs] | None => [] end).
+
+Definition enc_iso639 (d : DescriptorISO639LanguageAndAudioType) : list witem :=
+  wbytesn (DescriptorISO639LanguageAndAudioType_Language d) 3 0 ++
+  [wu8 (DescriptorISO639LanguageAndAudioType_Type d)].
+
+Definition enc_local_time_offset_item (it : DescriptorLocalTimeOffsetItem) : list witem :=
+  wbytesn (DescriptorLocalTimeOffsetItem_CountryCode it) 3 0 ++
+  [WBits 6 (DescriptorLocalTimeOffsetItem_CountryRegionID it); WBits 1 255;
+   WBool (DescriptorLocalTimeOffsetItem_LocalTimeOffsetPolarity it)] ++
+  enc_dvb_duration_minutes (DescriptorLocalTimeOffsetItem_LocalTimeOffset it) ++
+  enc_dvb_time (DescriptorLocalTimeOffsetItem_TimeOfChange it) ++
+  enc_dvb_duration_minutes (DescriptorLocalTimeOffsetItem_NextTimeOffset it).
+Definition enc_local_time_offset (d : DescriptorLocalTimeOffset) : list witem :=
+  flat_map enc_local_time_offset_item (DescriptorLocalTimeOffset_Items d).
+
+(* uint32(d.Bitrate/50) *)
+Definition enc_maximum_bitrate (d : DescriptorMaximumBitrate) : list witem :=
+  [WBits 2 255; WBits 22 (DescriptorMaximumBitrate_Bitrate d / 50)].
+
+Definition enc_network_name (d : DescriptorNetworkName) : list witem :=
+  [WBytes (DescriptorNetworkName_Name d)].
+
+Definition enc_parental_rating_item (it : DescriptorParentalRatingItem) : list witem :=
+  wbytesn (DescriptorParentalRatingItem_CountryCode it) 3 0 ++ [wu8 (DescriptorParentalRatingItem_Rating it)].
+Definition enc_parental_rating (d : DescriptorParentalRating) : list witem :=
+  flat_map enc_parental_rating_item (DescriptorParentalRating_Items d).
+
+Definition enc_private_data_indicator (d : DescriptorPrivateDataIndicator) : list witem :=
+  [wu32 (DescriptorPrivateDataIndicator_Indicator d)].
+Definition enc_private_data_specifier (d : DescriptorPrivateDataSpecifier) : list witem :=
+  [wu32 (DescriptorPrivateDataSpecifier_Specifier d)].
+
+Definition enc_registration (d : DescriptorRegistration) : list witem :=
+  [wu32 (DescriptorRegistration_FormatIdentifier d); WBytes (DescriptorRegistration_AdditionalIdentificationInfo d)].
+
+Definition enc_service (d : DescriptorService) : list witem :=
+  [wu8 (DescriptorService_Type d);
+   wu8 (blen (DescriptorService_Provider d)); WBytes (DescriptorService_Provider d);
+   wu8 (blen (DescriptorService_Name d)); WBytes (DescriptorService_Name d)].
+
+Definition enc_short_event (d : DescriptorShortEvent) : list witem :=
+  wbytesn (DescriptorShortEvent_Language d) 3 0 ++
+  [wu8 (blen (DescriptorShortEvent_EventName d)); WBytes (DescriptorShortEvent_EventName d);
+   wu8 (blen (DescriptorShortEvent_Text d)); WBytes (DescriptorShortEvent_Text d)].
+
+Definition enc_stream_identifier (d : DescriptorStreamIdentifier) : list witem :=
+  [wu8 (DescriptorStreamIdentifier_ComponentTag d)].
+
+Definition enc_subtitling_item (it : DescriptorSubtitlingItem) : list witem :=
+  wbytesn (DescriptorSubtitlingItem_Language it) 3 0 ++
+  [wu8 (DescriptorSubtitlingItem_Type it); wu16 (DescriptorSubtitlingItem_CompositionPageID it);
+   wu16 (DescriptorSubtitlingItem_AncillaryPageID it)].
+Definition enc_subtitling (d : DescriptorSubtitling) : list witem :=
+  flat_map enc_subtitling_item (DescriptorSubtitling_Items d).
+
+(* item.Page/10 and item.Page%10, four bits each *)
+Definition enc_teletext_item (it : DescriptorTeletextItem) : list witem :=
+  wbytesn (DescriptorTeletextItem_Language it) 3 0 ++
+  [WBits 5 (DescriptorTeletextItem_Type it); WBits 3 (DescriptorTeletextItem_Magazine it);
+   WBits 4 (DescriptorTeletextItem_Page it / 10); WBits 4 (DescriptorTeletextItem_Page it mod 10)].
+Definition enc_teletext (d : DescriptorTeletext) : list witem :=
+  flat_map enc_teletext_item (DescriptorTeletext_Items d).
+
+Definition enc_vbi_line (l : DescriptorVBIDataDescriptor) : list witem :=
+  [WBits 2 255; WBool (DescriptorVBIDataDescriptor_FieldParity l); WBits 5 (DescriptorVBIDataDescriptor_LineOffset l)].
+Definition enc_vbi_data_service (s : DescriptorVBIDataService) : list witem :=
+  wu8 (DescriptorVBIDataService_DataServiceID s) ::
+  (if is_vbi_line_service (DescriptorVBIDataService_DataServiceID s)
+   then wu8 (Z.of_nat (length (DescriptorVBIDataService_Descriptors s))) ::
+        flat_map enc_vbi_line (DescriptorVBIDataService_Descriptors s)
+   else [wu8 1; wu8 255]).
+Definition enc_vbi_data (d : DescriptorVBIData) : list witem :=
+  flat_map enc_vbi_data_service (DescriptorVBIData_Services d).
+
+Definition enc_unknown (d : DescriptorUnknown) : list witem := [WBytes (DescriptorUnknown_Content d)].
+
+(* ---------------- writeDescriptor / writeDescriptors / writeDescriptorsWithLength ---------------- *)
+
+(* the tag switch of writeDescriptor (reached only when the computed length is not 0) *)
+Definition enc_descriptor_body (d : Descriptor) : res (list witem) :=
+  let tag := Descriptor_Tag d in
+  if is_user_defined tag then Ok [WBytes (Descriptor_UserDefined d)]
+  else if tag =? C_DescriptorTagAC3 then res_map enc_ac3 (dneed (Descriptor_AC3 d))
+  else if tag =? C_DescriptorTagAVCVideo then res_map enc_avc_video (dneed (Descriptor_AVCVideo d))
+  else if tag =? C_DescriptorTagComponent then res_map enc_component (dneed (Descriptor_Component d))
+  else if tag =? C_DescriptorTagContent then res_map enc_content (dneed (Descriptor_Content d))
+  else if tag =? C_DescriptorTagDataStreamAlignment then res_map enc_data_stream_alignment (dneed (Descriptor_DataStreamAlignment d))
+  else if tag =? C_DescriptorTagEnhancedAC3 then res_map enc_enhanced_ac3 (dneed (Descriptor_EnhancedAC3 d))
+  else if tag =? C_DescriptorTagExtendedEvent then res_map enc_extended_event (dneed (Descriptor_ExtendedEvent d))
+  else if tag =? C_DescriptorTagExtension then res_bind (dneed (Descriptor_Extension d)) enc_extension
+  else if tag =? C_DescriptorTagISO639LanguageAndAudioType then res_map enc_iso639 (dneed (Descriptor_ISO639LanguageAndAudioType d))
+  else if tag =? C_DescriptorTagLocalTimeOffset then res_map enc_local_time_offset (dneed (Descriptor_LocalTimeOffset d))
+  else if tag =? C_DescriptorTagMaximumBitrate then res_map enc_maximum_bitrate (dneed (Descriptor_MaximumBitrate d))
+  else if tag =? C_DescriptorTagNetworkName then res_map enc_network_name (dneed (Descriptor_NetworkName d))
+  else if tag =? C_DescriptorTagParentalRating then res_map enc_parental_rating (dneed (Descriptor_ParentalRating d))
+  else if tag =? C_DescriptorTagPrivateDataIndicator then res_map enc_private_data_indicator (dneed (Descriptor_PrivateDataIndicator d))
+  else if tag =? C_DescriptorTagPrivateDataSpecifier then res_map enc_private_data_specifier (dneed (Descriptor_PrivateDataSpecifier d))
+  else if tag =? C_DescriptorTagRegistration then res_map enc_registration (dneed (Descriptor_Registration d))
+  else if tag =? C_DescriptorTagService then res_map enc_service (dneed (Descriptor_Service d))
+  else if tag =? C_DescriptorTagShortEvent then res_map enc_short_event (dneed (Descriptor_ShortEvent d))
+  else if tag =? C_DescriptorTagStreamIdentifier then res_map enc_stream_identifier (dneed (Descriptor_StreamIdentifier d))
+  else if tag =? C_DescriptorTagSubtitling then res_map enc_subtitling (dneed (Descriptor_Subtitling d))
+  else if tag =? C_DescriptorTagTeletext then res_map enc_teletext (dneed (Descriptor_Teletext d))
+  else if tag =? C_DescriptorTagVBIData then res_map enc_vbi_data (dneed (Descriptor_VBIData d))
+  else if tag =? C_DescriptorTagVBITeletext then res_map enc_teletext (dneed (Descriptor_VBITeletext d))
+  else res_map enc_unknown (dneed (Descriptor_Unknown d)).
+
+(* writeDescriptor: tag, computed length, and the body unless the computed length is 0 *)
+Definition enc_descriptor (d : Descriptor) : res (list witem) :=
+  let len := calc_descriptor_length d in
+  let hdr := [wu8 (Descriptor_Tag d); wu8 len] in
+  if len =? 0 then Ok hdr else res_map (app hdr) (enc_descriptor_body d).
+
+(* the `written` count writeDescriptor returns *)
+Definition descriptor_written (d : Descriptor) : Z := calc_descriptor_length d + 2.
+
 Fixpoint enc_descriptors (ds : list Descriptor) : res (list witem) :=
   match ds with
   | [] => Ok []
-  | d :: r => res_bind (enc_descriptor d) (fun a => res_bind (enc_descriptors r) (fun b => Ok (a ++ b)))
+  | d :: r => res_bind (enc_descriptor d) (fun a => res_map (app a) (enc_descriptors r))
   end.
 
-(* writeDescriptorsWithLength *)
+Definition descriptors_written (ds : list Descriptor) : Z :=
+  fold_left (fun n d => n + descriptor_written d) ds 0.
+
+(* writeDescriptorsWithLength: 4 reserved bits, the low 12 bits of calcDescriptorsLength, the loop *)
 Definition enc_descriptors_with_length (ds : list Descriptor) : res (list witem) :=
-  res_bind (enc_descriptors ds) (fun body =>
-    Ok ([WBits 4 255; WBits 12 (calc_descriptors_length ds)] ++ body)).
+  res_map (app [WBits 4 255; WBits 12 (calc_descriptors_length ds)]) (enc_descriptors ds).
